@@ -1,6 +1,7 @@
 package c13
 
 import (
+	"bytes"
 	"fmt"
 	"math/big"
 
@@ -1080,6 +1081,70 @@ func tryOffCase(i int) ([]byte, string) {
 	}
 	sc := cat(op(s.TRY, byte(int8(c)), byte(int8(f))), op(s.PUSH1), b, op(s.ENDTRY, byte(int8(e))), op(s.PUSH2), op(s.ENDFINALLY), op(s.PUSH3), op(s.RET), op(s.PUSH4))
 	return sc, fmt.Sprintf("c%d,f%d,e%d,b%d", c, f, e, body)
+}
+
+// tryStartCase: TRY blocks whose catch / finally handler lies BEFORE the TRY
+// instruction, at absolute offset 0, 1 or 2 of the script (negative relative
+// offsets). The script starts with "DEPTH; JMPIF handler-rest", so the first
+// pass (empty stack) falls through to the TRY and the second pass - entered
+// through the handler offset with something on the stack - goes on to the
+// rest of the handler.
+func tryStartCase(i int) ([]byte, string) {
+	pad := i % 3 // NOPs before the DEPTH: the handler is at absolute offset pad... or the DEPTH itself
+	i /= 3
+	kind := i % 4 // 0 catch, 1 finally, 2 both (catch at start), 3 both (finally at start)
+	i /= 4
+	body := i % 3 // 0 throw, 1 plain, 2 fault
+	i /= 3
+	target := i % 2 // 0: handler offset points at the first byte of the script, 1: at the DEPTH
+	pre := bytes.Repeat(op(s.NOP), pad)
+	// layout: pre | DEPTH | JMPIF +x | TRY c f | body | ENDTRY +y | rest...
+	var b []byte
+	switch body {
+	case 0:
+		b = cat(op(s.PUSH7), op(s.THROW))
+	case 1:
+		b = op(s.PUSH5)
+	default:
+		b = cat(op(s.PUSH5), op(s.NEWARRAY0), op(s.PUSH0), op(s.PICKITEM))
+	}
+	tryPos := len(pre) + 1 + 2
+	back := 0
+	if target == 1 {
+		back = len(pre)
+	}
+	toStart := byte(int8(back - tryPos))
+	// handler rest H (reached through JMPIF): DROP PUSH9 ENDTRY/ENDFINALLY ...
+	var c, f byte
+	var rest []byte
+	switch kind {
+	case 0:
+		c, f = toStart, 0
+		rest = cat(op(s.DROP), op(s.PUSH9), op(s.ENDTRY, 2), op(s.RET))
+	case 1:
+		c, f = 0, toStart
+		rest = cat(op(s.PUSH9), op(s.ENDFINALLY), op(s.RET))
+	case 2:
+		c = toStart
+		rest = cat(op(s.DROP), op(s.PUSH9), op(s.ENDTRY, 4), op(s.PUSH2), op(s.ENDFINALLY), op(s.RET))
+	default:
+		f = toStart
+		rest = cat(op(s.PUSH9), op(s.ENDFINALLY), op(s.RET), op(s.DROP), op(s.PUSH8), op(s.ENDTRY, 2), op(s.RET))
+	}
+	mid := cat(b, op(s.ENDTRY, 0)) // ENDTRY offset patched below
+	// positions
+	jmpifPos := len(pre) + 1
+	restPos := tryPos + 3 + len(mid) + 1 // + RET after the ENDTRY target
+	sc := cat(pre, op(s.DEPTH), op(s.JMPIF, byte(int8(restPos-jmpifPos))), op(s.TRY, c, f), mid, op(s.RET), rest)
+	endtryPos := tryPos + 3 + len(b)
+	sc[endtryPos+1] = byte(int8(tryPos + 3 + len(mid) - endtryPos)) // to the RET right after
+	switch kind {
+	case 2: // finally in the forward direction: at "PUSH2" of rest
+		sc[tryPos+2] = byte(int8(restPos + 1 + 1 + 2 - tryPos))
+	case 3: // catch in the forward direction: at the second DROP of rest
+		sc[tryPos+1] = byte(int8(restPos + 1 + 1 + 1 - tryPos))
+	}
+	return sc, fmt.Sprintf("pad%d,kind%d,body%d,target%d", pad, kind, body, target)
 }
 
 // jmpOffCase enumerates jump / call / pointer offsets around the script bounds.
